@@ -178,6 +178,8 @@ func checkC18(w *World, r *Report) {
 	l3(w, r)
 	l5(w, r)
 	l6(w, r)
+	l7(w, r)
+	r.Floor("L-7", 2, "snapshot / commit exclusion")
 	r.Floor("L-6", 1, "what marks an item for the next commit")
 	r.Floor("L-5", 1, "sentinel errors compared by identity")
 	r.Floor("L-1", 3, "exploration + positive controls")
@@ -258,6 +260,60 @@ func l6(w *World, r *Report) {
 		}
 		climb(f, 0)
 		r.Check(bad == "", "L-6", key, "reached only from Set / SetFinality", "an item is put among the updated ones by "+bad+", which is not a write: a read then makes Commit rewrite an unchanged value, but only on a node whose read cache is empty (after a restart) — the root hashes diverge", site(w, markers[f]))
+	}
+}
+
+// L-7: opening a historical tree and committing a version exclude each other.
+// iavl opens a tree by reading its storage-version record and then its latest root
+// version as two separate reads, while SaveVersion writes both in one batch; a
+// snapshot built across that batch takes the fast-node index for stale and
+// rewrites it from the (old) version it was asked for. The finality ledger
+// serialises the two with its own mutex: Commit takes it for writing,
+// ImmutableLedgerAt at least for reading, each before anything else and until it
+// returns (deferred release). The embedded SimpleLedger has a mutex of its own
+// that Commit does not take, so the inner lock is not a substitute.
+func l7(w *World, r *Report) {
+	for _, m := range []struct {
+		name  string
+		write bool
+	}{{"Commit", true}, {"ImmutableLedgerAt", false}} {
+		fn := needFn(r, "L-7", w, fref{pkgLedger, "FinalityLedger", m.name})
+		if fn == nil || len(fn.Blocks) == 0 {
+			continue
+		}
+		ownMtx := func(v ssa.Value) bool {
+			fa, ok := v.(*ssa.FieldAddr)
+			if !ok || fa.X != ssa.Value(fn.Params[0]) {
+				return false
+			}
+			n, f := fieldOf(fa.X.Type(), fa.Field)
+			return n != nil && f != nil && n.Obj().Name() == "FinalityLedger" && strings.HasSuffix(typeStr(f.Type()), "RWMutex")
+		}
+		acquired, released, why := false, false, "the method does not start by taking the finality ledger's own mutex"
+	scan:
+		for _, in := range fn.Blocks[0].Instrs {
+			switch c := in.(type) {
+			case *ssa.Call:
+				cal := c.Common().StaticCallee()
+				if cal != nil && w.FuncPkgPath(cal) == "sync" && len(c.Common().Args) == 1 && ownMtx(c.Common().Args[0]) && (cal.Name() == "Lock" || (cal.Name() == "RLock" && !m.write)) {
+					acquired = true
+					continue
+				}
+				if !acquired {
+					why = "a call precedes the acquisition of the finality ledger's mutex (" + site(w, in) + ")"
+					break scan
+				}
+			case *ssa.Defer:
+				cal := c.Common().StaticCallee()
+				if acquired && cal != nil && w.FuncPkgPath(cal) == "sync" && len(c.Common().Args) == 1 && ownMtx(c.Common().Args[0]) && (cal.Name() == "Unlock" || cal.Name() == "RUnlock") {
+					released = true
+				}
+			}
+		}
+		if acquired && !released {
+			why = "the mutex is not held until the method returns (no deferred release)"
+		}
+		r.Check(acquired && released, "L-7", "exclusion:FinalityLedger."+m.name, "holds the finality ledger's own mutex from its first call until it returns", "building a historical tree is not serialised with committing a version on the same database: "+why, fnSite(w, fn))
 	}
 }
 
